@@ -496,6 +496,82 @@ func (sp *spec) build() (func(), func(x *vsched.Exec) (string, error)) {
 					errs = append(errs, fmt.Errorf("state modifier after resume: each nested state must come back with the modification addressed to its path: got %s, expected %s", got, want))
 				}
 			}
+		case "statelesssub":
+			// a sub-graph WITHOUT a state of its own below a stateful parent: its nodes x, y work on the parent's state
+			// (that is what an uninterrupted run does). Interrupted inside (before y) and resumed, their updates must
+			// still reach the parent's state: node b of the parent reports it; differential oracle against the
+			// uninterrupted run of the same graph.
+			mk := func(interrupt bool) (compose.Runnable[Val, Val], error) {
+				inc := func(name string) *compose.Lambda {
+					return compose.InvokableLambda(func(ctx context.Context, in Val) (Val, error) {
+						err := compose.ProcessState(ctx, func(ctx context.Context, s *St) error {
+							s.einoGuardedAdd(1)
+							s.einoGuardedExit(name)
+							return nil
+						})
+						return Val{name: "done"}, err
+					})
+				}
+				sub := compose.NewGraph[Val, Val]()
+				sub.AddLambdaNode("x", inc("x"))
+				sub.AddLambdaNode("y", inc("y"))
+				sub.AddEdge(compose.START, "x")
+				sub.AddEdge("x", "y")
+				sub.AddEdge("y", compose.END)
+				g := compose.NewGraph[Val, Val](compose.WithGenLocalState(func(ctx context.Context) *St { return &St{} }))
+				g.AddLambdaNode("a", inc("a"))
+				var subOpts []compose.GraphCompileOption
+				if sp.mode == "dag" {
+					subOpts = append(subOpts, compose.WithNodeTriggerMode(compose.AllPredecessor))
+				}
+				if interrupt {
+					subOpts = append(subOpts, compose.WithInterruptBeforeNodes([]string{"y"}))
+				}
+				g.AddGraphNode("s", sub, compose.WithGraphCompileOptions(subOpts...))
+				g.AddLambdaNode("b", compose.InvokableLambda(func(ctx context.Context, in Val) (Val, error) {
+					var c int
+					var log []string
+					err := compose.ProcessState(ctx, func(ctx context.Context, s *St) error {
+						c, log = s.einoGuardedSnapshot()
+						return nil
+					})
+					return Val{"b": fmt.Sprintf("counter=%d log=%v", c, log)}, err
+				}))
+				g.AddEdge(compose.START, "a")
+				g.AddEdge("a", "s")
+				g.AddEdge("s", "b")
+				g.AddEdge("b", compose.END)
+				opts := []compose.GraphCompileOption{compose.WithCheckPointStore(&memStore{m: map[string][]byte{}})}
+				if sp.mode == "dag" {
+					opts = append(opts, compose.WithNodeTriggerMode(compose.AllPredecessor))
+				}
+				return g.Compile(context.Background(), opts...)
+			}
+			r0, err := mk(false)
+			if err != nil {
+				errs = append(errs, err)
+				return
+			}
+			want, err := run(r0, sp.call, Val{"in": "x"})
+			if err != nil {
+				errs = append(errs, err)
+				return
+			}
+			r, err := mk(true)
+			if err != nil {
+				errs = append(errs, err)
+				return
+			}
+			_, err = run(r, sp.call, Val{"in": "x"}, compose.WithCheckPointID("cp"))
+			if _, isInt := compose.ExtractInterruptInfo(err); !isInt {
+				errs = append(errs, fmt.Errorf("expected an interrupt inside the sub-graph node s, got %v", err))
+				return
+			}
+			v, err := run(r, sp.call, Val{"in": "ignored"}, compose.WithCheckPointID("cp"))
+			results, errs = append(results, v), append(errs, err)
+			if err == nil && gprog.Canon(v) != gprog.Canon(want) {
+				errs = append(errs, fmt.Errorf("state of the parent after resume inside a sub-graph without a state of its own: the parent's node b saw %s, in the uninterrupted run of the same graph it saw %s (updates made below the resumed sub-graph did not reach the parent's state)", gprog.Canon(v), gprog.Canon(want)))
+			}
 		case "resume":
 			// state is carried unchanged across interrupt/resume, apart from the caller's modification
 			store := &memStore{m: map[string][]byte{}}
@@ -568,7 +644,7 @@ func (sp *spec) build() (func(), func(x *vsched.Exec) (string, error)) {
 				return "", fmt.Errorf("run failed: %v", e)
 			}
 		}
-		if strings.HasPrefix(sp.shape, "deepmodify") {
+		if strings.HasPrefix(sp.shape, "deepmodify") || sp.shape == "statelesssub" {
 			return gprog.Canon(results[0]), nil
 		}
 		if w.idErr != "" {
@@ -779,13 +855,13 @@ func (sp *spec) build() (func(), func(x *vsched.Exec) (string, error)) {
 
 func main() {
 	c := harness.Init("C11")
-	c.Res.Rule = "scenario = stateful graph (Pregel / all-predecessor / eager Workflow) with 2-3 parallel nodes x which state users are present (state pre-handlers, post-handlers, ProcessState in node bodies; each a read-yield-write increment with enter/exit markers in the state's log) x shape (fan-out of 2 or 3, fan-out of 2 in which one ProcessState callback panics while it holds the state (the sibling must not hang), fan-out of 2 with STREAM state handlers that return lazily converted streams whose convert function calls ProcessState, stateful nested graph next to a parent node, two concurrent runs of one compiled graph, interrupt-after + resume with a StateModifier, two stateful sibling sub-graphs below 0-4 stateless wrapper graphs (node paths of length 1-5) interrupted inside and resumed with a modification addressed by path, a stateful sub-graph node carrying the parent's state handlers that is interrupted inside (interrupt-before an inner node / an inner node asking for its re-run) and resumed, an eager Workflow resumed with two restored tasks and a successor that starts while one of them is still running) x Invoke/Stream; every interleaving of executor goroutines, run loop and callers within the preemption bound, both map orders; distinct/non-trivial = distinct scheduling signatures of scenarios with >= 2 of them"
+	c.Res.Rule = "scenario = stateful graph (Pregel / all-predecessor / eager Workflow) with 2-3 parallel nodes x which state users are present (state pre-handlers, post-handlers, ProcessState in node bodies; each a read-yield-write increment with enter/exit markers in the state's log) x shape (fan-out of 2 or 3, fan-out of 2 in which one ProcessState callback panics while it holds the state (the sibling must not hang), fan-out of 2 with STREAM state handlers that return lazily converted streams whose convert function calls ProcessState, stateful nested graph next to a parent node, two concurrent runs of one compiled graph, interrupt-after + resume with a StateModifier, two stateful sibling sub-graphs below 0-4 stateless wrapper graphs (node paths of length 1-5) interrupted inside and resumed with a modification addressed by path, a sub-graph without a state of its own whose nodes use the stateful parent's state interrupted inside and resumed (judged against the uninterrupted run of the same graph), a stateful sub-graph node carrying the parent's state handlers that is interrupted inside (interrupt-before an inner node / an inner node asking for its re-run) and resumed, an eager Workflow resumed with two restored tasks and a successor that starts while one of them is still running) x Invoke/Stream; every interleaving of executor goroutines, run loop and callers within the preemption bound, both map orders; distinct/non-trivial = distinct scheduling signatures of scenarios with >= 2 of them"
 	c.Res.Assumptions = []string{
 		"sequential consistency at synchronisation granularity; critical-section bodies are atomic apart from their explicit yield",
 		"no happens-before state caching: a missing lock makes the state plain shared memory",
 		harness.RacePassAssumption + "; here the harness's own accesses to the state object inside handlers / ProcessState count as eino-owned (the state is what eino must serialise) and are attributed to the eino function that called the handler",
 	}
-	c.Res.Explanation = "stateless exhaustive exploration of real stateful graph runs; oracle per execution: counter equals the number of increments (no lost update), enter/exit markers never interleave (mutual exclusion), pre-handler before body before post-handler per node, handler return values are what the node and END receive, one state object per run and a distinct one per nested stateful graph and per concurrent run, after interrupt+resume the state equals the state at the interrupt plus the StateModifier's change, a modification addressed by node path reaches exactly the nested state at that path (at every nesting depth 1-5), and a sub-graph node interrupted inside and resumed leaves each of the parent's state handlers on it in the parent state exactly once. " + harness.RacePassExplanation
+	c.Res.Explanation = "stateless exhaustive exploration of real stateful graph runs; oracle per execution: counter equals the number of increments (no lost update), enter/exit markers never interleave (mutual exclusion), pre-handler before body before post-handler per node, handler return values are what the node and END receive, one state object per run and a distinct one per nested stateful graph and per concurrent run, after interrupt+resume the state equals the state at the interrupt plus the StateModifier's change, a modification addressed by node path reaches exactly the nested state at that path (at every nesting depth 1-5), updates made below a resumed sub-graph that has no state of its own reach the parent's state as in the uninterrupted run, and a sub-graph node interrupted inside and resumed leaves each of the parent's state handlers on it in the parent state exactly once. " + harness.RacePassExplanation
 	quick := c.Quick()
 	rp := c.StartRacePass("./checks/c11") // worker 0 only: native -race build of this package, free runs of the scenario bodies
 	bounds := []int{0, 1, 2}
@@ -794,9 +870,9 @@ func main() {
 	}
 	type users struct{ pre, post, process bool }
 	us := []users{{false, false, true}, {true, true, false}, {true, true, true}, {false, true, true}, {true, false, true}}
-	for _, shape := range []string{"fan2", "fan2lazy", "fan2panic", "nested", "tworuns", "resume", "subresume-before", "subresume-rerun", "wfresume", "fan3", "deepmodify0", "deepmodify1", "deepmodify2", "deepmodify3", "deepmodify4"} {
+	for _, shape := range []string{"fan2", "fan2lazy", "fan2panic", "nested", "tworuns", "resume", "subresume-before", "subresume-rerun", "wfresume", "fan3", "deepmodify0", "deepmodify1", "deepmodify2", "deepmodify3", "deepmodify4", "statelesssub"} {
 		for _, mode := range []string{"pregel", "dag", "workflow"} {
-			if mode == "workflow" && (shape == "nested" || shape == "resume" || strings.HasPrefix(shape, "subresume") || strings.HasPrefix(shape, "deepmodify")) {
+			if mode == "workflow" && (shape == "nested" || shape == "resume" || strings.HasPrefix(shape, "subresume") || strings.HasPrefix(shape, "deepmodify") || shape == "statelesssub") {
 				continue
 			}
 			if shape == "wfresume" && mode != "workflow" {
@@ -807,7 +883,7 @@ func main() {
 					if shape == "fan2panic" && !(u.process && !u.pre && !u.post) {
 						continue // only the ProcessState users
 					}
-					if strings.HasPrefix(shape, "deepmodify") && !(u.process && !u.pre && !u.post) {
+					if (strings.HasPrefix(shape, "deepmodify") || shape == "statelesssub") && !(u.process && !u.pre && !u.post) {
 						continue // the shape has its own state users
 					}
 					if shape == "fan2lazy" && !(u.process && (u.pre || u.post)) {
@@ -819,13 +895,13 @@ func main() {
 					if quick && shape == "tworuns" && (call == "stream" || (u.pre && u.post && u.process)) {
 						continue
 					}
-					if quick && call == "stream" && !(u.pre && u.post) && !strings.HasPrefix(shape, "deepmodify") {
+					if quick && call == "stream" && !(u.pre && u.post) && !strings.HasPrefix(shape, "deepmodify") && shape != "statelesssub" {
 						continue
 					}
 					sp := &spec{mode: mode, shape: shape, pre: u.pre, post: u.post, process: u.process, yield: true, call: call, lazy: shape == "fan2lazy"}
 					sp.name = fmt.Sprintf("%s/%s/pre%v-post%v-process%v/%s", shape, mode, u.pre, u.post, u.process, call)
 					b := bounds
-					if shape == "resume" || strings.HasPrefix(shape, "subresume") || strings.HasPrefix(shape, "deepmodify") {
+					if shape == "resume" || strings.HasPrefix(shape, "subresume") || strings.HasPrefix(shape, "deepmodify") || shape == "statelesssub" {
 						b = []int{0}
 					} else if mode == "workflow" && (shape == "tworuns" || shape == "fan3") {
 						// eager mode starts every node in its own goroutine: 7 threads; one bound less
@@ -837,6 +913,8 @@ func main() {
 					sc := harness.Scenario{Name: sp.name, Bounds: b, MaxExecs: 1_500_000, New: sp.build, Signature: func(err error) string {
 						s := err.Error()
 						switch {
+						case strings.Contains(s, "sub-graph without a state of its own"):
+							return "stateless-subgraph-resumed-on-copy-of-parent-state"
 						case strings.Contains(s, "state modifier after resume"):
 							return "state-modifier-wrong-path"
 						case strings.Contains(s, "lost update"):
